@@ -3394,6 +3394,8 @@ def main(repo, outdir):
     guard("SyntaxGen.v", lambda: py2coq_syntax.gen_syntax(repo))
     from py2coq_termlist import gen_termlist      # generator for PolyhedralTermList: translator/py2coq_termlist.py
     guard("TermListGen.v", lambda: gen_termlist(repo))
+    import py2coq_printer  # generator for the string printer (serializer.py, to_str_list): translator/py2coq_printer.py
+    guard("PrinterGen.v", lambda: py2coq_printer.gen_printer(repo))
     changed = []
     for name, txt in res.items():
         p = os.path.join(outdir, name)
